@@ -105,8 +105,8 @@ package goa
 //@   frameprop C20
 //@ func InvalidEnumValueError
 //@   params name val allowed
-//@   locals elems
 //@   property C05 C20
+//@   locals elems:[]string i:int a:any
 //@   ensures* standard: clientErr(result, "invalid_enum_value") && fieldIs(result, name)
 //@   loop 1 invariant own: fresh(elems) && len(elems) == len(allowed)
 //@   modifies* nothing
@@ -157,6 +157,7 @@ package goa
 //@ func MergeErrors
 //@   params err other
 //@   property C18
+//@   locals e:*goa.ServiceError o:*goa.ServiceError hist:[]*goa.ServiceError orig:goa.ServiceError
 //@   let both = err != nil && other != nil
 //@   let eS = asSE(err) != 0
 //@   let oS = asSE(other) != 0
@@ -214,6 +215,7 @@ package goa
 //@ func ValidateFormat
 //@   params name val f
 //@   property C17 C20
+//@   locals err:error ip:net.IP
 //@   ensures* date: f == "date" ==> (result == nil) == timeOk("2006-01-02", val)
 //@   ensures* datetime: f == "date-time" ==> (result == nil) == timeOk("2006-01-02T15:04:05Z07:00", val)
 //@   ensures* uuid: f == "uuid" ==> (result == nil) == (uuidOk(val) && uuidVariant(uuidVal(val)) == 1)
